@@ -233,6 +233,20 @@ def cigar_of(ref, que):
     return ops
 
 
+def cigar_eqx(ref, que):
+    """the same relation in the extended CIGAR alphabet (minimap2 --eqx): = where the two rows hold the same letter, X where not"""
+    ops = []
+    for r, q in zip(ref, que):
+        if r == "-" and q == "-":
+            continue
+        o = "I" if r == "-" else "D" if q == "-" else "=" if r.upper() == q.upper() else "X"
+        if ops and ops[-1][0] == o:
+            ops[-1] = (o, ops[-1][1] + 1)
+        else:
+            ops.append((o, 1))
+    return ops
+
+
 def split_records(rng, name, ref, que):
     """The pairwise relation as 2-3 SAM records (primary + supplementary) that tile it: cut between two columns that both
     hold a reference base and a query base, the other part hard-clipped; sometimes a soft clip in front of the first."""
@@ -265,8 +279,8 @@ def split_records(rng, name, ref, que):
 
 
 def sam_form_stage(ctx, cm, gen, samgen, anno, cases, obs, bad, get_pairs):
-    """Every case's pairwise relations written as one SAM record per query, and as 2-3 tiling records per query (sometimes
-    behind a soft clip), and given to `sam variants` (one worker): its rows must equal the rows `variants` printed for the
+    """Every case's pairwise relations written as one SAM record per query, as 2-3 tiling records per query (sometimes
+    behind a soft clip), and as one record per query in the extended CIGAR alphabet (= / X for M), and given to `sam variants` (one worker): its rows must equal the rows `variants` printed for the
     FASTA-MSA form.  Returns the number of runs."""
     stage, plan = [], []
     for c in cases:
@@ -284,7 +298,8 @@ def sam_form_stage(ctx, cm, gen, samgen, anno, cases, obs, bad, get_pairs):
             split += sr if sr else [r for r in recs if r["name"] == nm]
         refb = gen.layout(ctx.rng, [("REF", genome)], "plain")
         g = c["go"]
-        for rs in (recs, split):
+        eqx = [dict(r, cigar=cigar_eqx(ref, que)) for r, (nm, ref, que) in zip(recs, pairs)]
+        for rs in (recs, split, eqx):
             samb = samgen.render_sam("REF", len(genome), rs)
             stage.append({"id": len(stage), "op": "samvariants", "sam": cm.b64(samb), "ref": cm.b64(refb), "anno": cm.b64(c["info"]["annob"]),
                           "suffix": c["info"]["suffix"], "ref_from_file": True, "start": g.get("start", -1), "end": g.get("end", -1),
